@@ -124,9 +124,29 @@ def ob_parse_errors(ctx, res):
         if n_ok != ncols or len(req) != ncols:
             res.fail("parse/%s/columns" % name, fn, "expected %d required columns each yielding `Missing ..`/`Invalid ..` errors; found %d missing-checks, %d parse-checks" % (ncols, len(req), n_ok))
             continue
-        tail = [n for n in walk_no_nested_fn(fn.body) if n.k == "match" and up(strip(n["scrut"])) == "res"]
-        if len(tail) != 1 or not any(up(a["pat"]).startswith("Err(") and up(strip(a["body"])).startswith("Some(Err(") for a in tail[0]["arms"]):
-            res.fail("parse/%s/result" % name, fn, "a column error must be returned as Some(Err(..))")
+        # the function's value for a column error: evaluated (the closure's result is mocked as Err(E) / Ok(columns))
+        from ..rules.interp import Interp, NotPure
+        tl = fn.body["stmts"][-1]
+        tail_e = strip(tl["e"]) if tl.k == "expr_stmt" and not tl.get("semi") else None
+        verdict = None
+        if tail_e is None:
+            verdict = ("undecided", "no tail expression")
+        else:
+            try:
+                class _Env(dict):
+                    def __contains__(self, k):
+                        return True
+                    def __missing__(self, k):
+                        return "V:" + k
+                v_err = Interp(ctx.ast, BP, extern={"None": None}).ev(tail_e, _Env(res=("err", "E")), 0)
+                if v_err != ("some", ("err", "E")):
+                    verdict = ("differs", v_err)
+            except NotPure as e:
+                verdict = ("undecided", str(e))
+        if verdict and verdict[0] == "undecided":
+            res.undecided("parse/%s/result" % name, fn, "the value returned for a column error was not evaluated (%s)" % verdict[1])
+        elif verdict:
+            res.fail("parse/%s/result" % name, fn, "a column error must be returned as Some(Err(..)); the function yields %s" % (verdict[1],))
             continue
         # `None` means "no more data" to every caller, so no line that was read may produce it: the first column (`split.next()` of a splitn,
         # which always yields an item) must be taken unconditionally
